@@ -2,6 +2,7 @@ package adapters
 
 import (
 	"context"
+	"encoding/base64"
 	"errors"
 	"fmt"
 	"math/big"
@@ -31,6 +32,8 @@ type fakeLnd struct {
 	peers    []string
 	edges    map[uint64]*lnrpc.ChannelEdge
 	invoices map[string]*lnrpc.PayReq
+	// addInvoiceErr makes AddInvoice fail
+	addInvoiceErr error
 }
 
 func (f *fakeLnd) ListChannels(_ context.Context, in *lnrpc.ListChannelsRequest, _ ...grpc.CallOption) (*lnrpc.ListChannelsResponse, error) {
@@ -238,7 +241,19 @@ func TestC06LndPaymentAdapter(t *testing.T) {
 		ch := &lnrpc.Channel{Active: true, RemotePubkey: peer, ChanId: scid.ToUint64(), Capacity: 10_000_000, LocalBalance: 6_000_000, RemoteBalance: 4_000_000,
 			LocalConstraints: &lnrpc.ChannelConstraints{ChanReserveSat: 1000}, RemoteConstraints: &lnrpc.ChannelConstraints{ChanReserveSat: 1000}}
 		amtSat := rapid.Int64Range(1000, 3_000_000).Draw(t, "amountSat")
-		f := &fakeLnd{channels: []*lnrpc.Channel{ch}, peers: []string{peer}, edges: map[uint64]*lnrpc.ChannelEdge{},
+		chans := []*lnrpc.Channel{ch}
+		// channels funded by the same transaction (batch open) differ in the output index only
+		if rapid.Bool().Draw(t, "siblingChannel") {
+			sib := lnwire.ShortChannelID{BlockHeight: 700000, TxIndex: 12, TxPosition: uint16(rapid.SampledFrom([]int{0, 2}).Draw(t, "siblingOutput"))}
+			sc := &lnrpc.Channel{Active: true, RemotePubkey: peer, ChanId: sib.ToUint64(), Capacity: 10_000_000, LocalBalance: 6_000_000, RemoteBalance: 4_000_000,
+				LocalConstraints: &lnrpc.ChannelConstraints{ChanReserveSat: 1000}, RemoteConstraints: &lnrpc.ChannelConstraints{ChanReserveSat: 1000}}
+			if rapid.Bool().Draw(t, "siblingFirst") {
+				chans = []*lnrpc.Channel{sc, ch}
+			} else {
+				chans = append(chans, sc)
+			}
+		}
+		f := &fakeLnd{channels: chans, peers: []string{peer}, edges: map[uint64]*lnrpc.ChannelEdge{},
 			invoices: map[string]*lnrpc.PayReq{"lnbcrt1claim": {Destination: peer, NumSatoshis: amtSat, NumMsat: amtSat * 1000, CltvExpiry: 18, PaymentHash: strings.Repeat("cd", 32)}}}
 		r := &fakeRouter{preimage: strings.Repeat("ef", 32)}
 		outcome := rapid.SampledFrom([]string{"succeeded", "succeeded", "failed", "stream-error"}).Draw(t, "outcome")
@@ -285,6 +300,12 @@ func TestC06LndPaymentAdapter(t *testing.T) {
 		if len(r.sendReqs) != 1 {
 			t.Fatalf("VKEY[C24/lnd-adapter/payment-attempts] %s: %d SendPaymentV2 calls for one payment", desc, len(r.sendReqs))
 		}
+		// one HTLC, over the swap's own channel, for the invoice as it is
+		if rq := r.sendReqs[0]; len(rq.OutgoingChanIds) != 1 || rq.OutgoingChanIds[0] != scid.ToUint64() || rq.OutgoingChanId != 0 && rq.OutgoingChanId != scid.ToUint64() {
+			t.Fatalf("VKEY[C24/lnd-adapter/other-channel] %s (channels listed: %d): payment restricted to channels %v, the swap channel is %d", desc, len(chans), rq.OutgoingChanIds, scid.ToUint64())
+		} else if rq.MaxParts != 1 || rq.PaymentRequest != "lnbcrt1claim" || rq.Amt != 0 || rq.AmtMsat != 0 || len(rq.Dest) != 0 {
+			t.Fatalf("VKEY[C24/lnd-adapter/request-shape] %s: max_parts=%d payment_request=%q amt=%d/%d dest=%x", desc, rq.MaxParts, rq.PaymentRequest, rq.Amt, rq.AmtMsat, rq.Dest)
+		}
 		col.Case(desc, held || inflight > 0, map[string]interface{}{"kind": kind, "outcome": outcome, "held_long": held}, "outcome:"+outcome, fmt.Sprintf("held-long:%v", held))
 	})
 }
@@ -324,5 +345,41 @@ func TestC04LndRecoverClaimPayment(t *testing.T) {
 			t.Fatalf("VKEY[C06/lnd-adapter/unsettled-payment-recovered] outcome %s: RecoverClaimPayment returned preimage %q", outcome, pre)
 		}
 		col.Case(outcome, true, outcome, "outcome:"+outcome)
+	})
+}
+
+// AddInvoice of the fake: fails when told to.
+func (f *fakeLnd) AddInvoice(_ context.Context, in *lnrpc.Invoice, _ ...grpc.CallOption) (*lnrpc.AddInvoiceResponse, error) {
+	f.mu.Lock()
+	defer f.mu.Unlock()
+	if f.addInvoiceErr != nil {
+		return nil, f.addInvoiceErr
+	}
+	return &lnrpc.AddInvoiceResponse{PaymentRequest: "lnbcrt1new", RHash: []byte{1}}, nil
+}
+
+// TestC23LndAdapterErrorsCarryNoSecrets: errors the LND adapter returns end up in cancel messages
+// (HandleError -> CancelMessage), so they must not quote the secrets that were passed in - here the
+// preimage handed to GetPayreq when lnd refuses to create the invoice.
+func TestC23LndAdapterErrorsCarryNoSecrets(t *testing.T) {
+	col := stats.Get("C23.lnd-adapter-errors")
+	rapid.Check(t, func(t *rapid.T) {
+		pre := rapid.SliceOfN(rapid.Byte(), 32, 32).Draw(t, "preimage")
+		preHex := fmt.Sprintf("%x", pre)
+		f := &fakeLnd{edges: map[uint64]*lnrpc.ChannelEdge{}}
+		f.addInvoiceErr = status.Error(rapid.SampledFrom([]codes.Code{codes.Unavailable, codes.Unknown, codes.InvalidArgument}).Draw(t, "code"), rapid.SampledFrom([]string{"wallet locked", "invoice with payment hash already exists", "value too large"}).Draw(t, "lndMessage"))
+		cl := lnd.VerifNewClient(context.Background(), f, nil, nil, nil)
+		_, err := cl.GetPayreq(rapid.Uint64Range(1000, 5_000_000_000).Draw(t, "msat"), preHex, "swapid", "memo", 1, 3600, 29)
+		if err == nil {
+			t.Fatalf("harness: GetPayreq succeeded although AddInvoice failed")
+		}
+		msg := err.Error()
+		forms := map[string]string{"hex": preHex, "raw": string(pre), "quoted": fmt.Sprintf("%q", pre), "go-bytes": fmt.Sprintf("%v", pre), "base64": base64.StdEncoding.EncodeToString(pre), "upper-hex": strings.ToUpper(preHex)}
+		for name, form := range forms {
+			if strings.Contains(msg, form) || (name == "quoted" && strings.Contains(msg, strings.Trim(form, "\""))) {
+				t.Fatalf("VKEY[C23/lnd-adapter/error-quotes-preimage:%s] the error returned for a failed AddInvoice contains the preimage (%s form): %s", name, name, msg)
+			}
+		}
+		col.Case(preHex, true, nil)
 	})
 }
